@@ -155,6 +155,26 @@ class RepoInterp(Interp):
             return self.class_names(e.left) + self.class_names(e.right)
         return [self.ctx.classname(self.mi, e)]
 
+    def stringish(self, v):
+        from .absint import App
+        r = super().stringish(v)
+        if r is None and isinstance(v, App):
+            # declared return annotation of a repository function
+            def ann_of(func: str):
+                fi = self.resolve_call(func) if self.resolve_call else None
+                return ast.unparse(fi.node.returns) if fi is not None and fi.node.returns is not None else None
+            a = ann_of(v.func)
+            if a == "str":
+                return True
+            if v.func == "[]" and len(v.args) == 2 and isinstance(v.args[0], App):
+                a = ann_of(v.args[0].func)
+                from .absint import Const
+                if a and a.startswith("tuple[") and isinstance(v.args[1], Const) and isinstance(v.args[1].v, int):
+                    elems = [x.strip() for x in a[6:-1].split(",")]
+                    if v.args[1].v < len(elems) and elems[v.args[1].v] == "str":
+                        return True
+        return r
+
     def e_Name(self, e, s):
         from .absint import Const
         if e.id not in s.env:
